@@ -25,6 +25,8 @@ DECIDED_R6 = ('Round 6: strict limit comparison; a supplied setting is used when
 DECIDED = DECIDED + ' ' + DECIDED_R6
 DECIDED_R7 = ('Round 7: the spooled body stays open while the response is produced; an upload reads its own part only (read(-1) included).')
 DECIDED = DECIDED + ' ' + DECIDED_R7
+DECIDED_R8 = ('Round 8: the framing readers and wsgi.input are used by _body_read only; a failed switch to the temporary file ends the reader; the accessors hand the body buffer to iter_items only.')
+DECIDED = DECIDED + ' ' + DECIDED_R8
 NOT_DECIDED = ('framing overhead of pathological chunking (1-byte chunks); memory used by the interpreter for the objects '
                'themselves.')
 ASSUMPTIONS = ['wsgi.input.read(n) returns at most n bytes', 'TemporaryFile keeps its content on disk']
@@ -56,6 +58,8 @@ def check(P, R):
     from . import c07 as _c07
     _c07.check_upload_window(P, _Sub13(R, why='a body larger than the in-memory threshold is kept on disk, not loaded: an upload reads its own part only'), 'C13.c')
     check_single_reader(P, R, 'C13.a')
+    from . import c08 as _c08
+    _c08.check_copy_keeps_config(P, R, 'C13.b', 'a body larger than the configured maximum is rejected - also when it is read through a copy of the request')
     f = P.func(f'{BM}:_body_read')
     g, rd = f.cfg, f.rd
     fors = [n for n in walk_shallow(f.node) if isinstance(n, ast.For)]
